@@ -25,6 +25,7 @@ RepLimit == 2
 MaxDepth == 1
 GasMax == 40
 ChildGasShared == FALSE
+CONSTANT Answer(_, _)
 INSTANCE VmExec
 
 \* <<cost of every op but COM, cost of COM>>
